@@ -162,7 +162,10 @@ Definition Inv (C : list N) (p : pst) : Prop :=
   OF (st p) /\ uid (st p) /\ CP (st p) /\ (mdirty p = true -> dflag (st p) = Some true) /\ Prot C (st p).
 
 Lemma Inv_Q C p : Inv C p -> Q C (st p).
-Proof. intros (H1 & H2 & H3 & H4 & H5). repeat split; auto. Qed.
+Proof.
+  intros (H1 & H2 & H3 & H4 & H5). split; [|exact H5].
+  split; [exact H1|]. split; [exact H2|]. right. exact H3.
+Qed.
 
 (** ---------- boolean checkers follow from the invariants ---------- *)
 Lemma mode_eqb_refl m : mode_eqb m m = true.
@@ -408,7 +411,10 @@ Definition D (C : list N) (p : pst) : Prop :=
   OF (st p) /\ uid (st p) /\ dflag (st p) = Some true /\ mdirty p = true /\ Prot C (st p).
 
 Lemma D_Q C p : D C p -> Q C (st p).
-Proof. intros (H1 & H2 & H3 & H4 & H5). repeat split; auto. Qed.
+Proof.
+  intros (H1 & H2 & H3 & H4 & H5). split; [|exact H5].
+  split; [exact H1|]. split; [exact H2|]. left. exact H3.
+Qed.
 
 Definition not_dirty_write (w : write) : Prop := forall b, w <> WDirty b.
 
@@ -521,9 +527,11 @@ Proof.
     - destruct (I3 q Hq) as [Q1 Q2]. split; [apply Hg; exact Q1|]. intros Hn. apply (Hg IN). exact (Q2 Hn).
     - subst q. split; [exact H1|exact H2]. }
   destruct (n =? 0) eqn:En.
-  - apply N.eqb_eq in En. repeat split; try assumption.
-    + eapply steps_trans; [exact S1|]. eapply steps_trans; [exact S2|exact S3].
-    + apply CPfin; try assumption. intros Hn. contradiction.
+  - apply N.eqb_eq in En.
+    split; [exact D3|]. split.
+    { eapply steps_trans; [exact S1|]. eapply steps_trans; [exact S2|exact S3]. }
+    split; [apply CPfin; try assumption; intros Hn; contradiction|].
+    split; [exact PN3|]. split; [exact R3'|]. split; [exact G3|exact A1].
   - apply N.eqb_neq in En.
     pose proof D3 as (O3 & U3 & _ & _ & P3).
     set (w4 := WAddIdx IN n i).
@@ -534,13 +542,425 @@ Proof.
       |apply of_addidx; [exact O3|exists r; split; [exact F3|split; [reflexivity|exact En]]]
       |apply (uid_same (st p3)); [symmetry; exact R4|exact U3]
       |apply (prot_same C (st p3)); [symmetry; exact R4|exact P3]|].
-    repeat split; try assumption.
-    + eapply steps_trans; [exact S1|]. eapply steps_trans; [exact S2|]. eapply steps_trans; [exact S3|exact S4].
-    + apply CPfin.
+    split; [exact D4|]. split.
+    { eapply steps_trans; [exact S1|]. eapply steps_trans; [exact S2|]. eapply steps_trans; [exact S3|exact S4]. }
+    split.
+    { apply CPfin.
       * cbn [emit st]. rewrite R4. exact R3'.
       * intros x e He. cbn [emit st]. apply get_idx_add. left. apply G3. exact He.
       * cbn [emit st]. apply get_idx_add. left. exact I3'.
-      * intros _. cbn [emit st]. apply (get_idx_add IN IN). right. split; reflexivity.
-    + apply (prot_same _ (st p3)); [symmetry; exact R4|exact PN3].
-    + intros x e He. cbn [emit st]. apply get_idx_add. left. apply G3. exact He.
+      * intros _. cbn [emit st]. apply (get_idx_add IN IN). right. split; reflexivity. }
+    split; [apply (prot_same _ (st p3)); [symmetry; exact R4|exact PN3]|].
+    split; [cbn [emit st]; rewrite R4; exact R3'|].
+    split; [|exact A1].
+    intros x e He. cbn [emit st]. apply get_idx_add. left. apply G3. exact He.
+Qed.
+
+(** ---------- removePin ---------- *)
+Definition removed_entry (r : prec) (x : idx) (e : N * N) : Prop :=
+  (x = idx_of_mode (r_mode r) /\ e = (r_cid r, r_id r)) \/ (x = IN /\ e = (r_name r, r_id r)).
+
+Lemma remove_pin_ok C p r :
+  Inv C p -> find_rec (r_id r) (st p) = Some r ->
+  (forall c, In c C -> exists q, In q (recs (st p)) /\ r_cid q = c /\ r_id q <> r_id r) ->
+  let p' := remove_pin r p in
+  D C p' /\ Steps C p p' /\ CP (st p') /\
+  recs (st p') = del_rec (r_id r) (recs (st p)) /\
+  (forall x e, In e (get_idx x (st p')) <-> In e (get_idx x (st p)) /\ ~ removed_entry r x e) /\
+  autosync p' = autosync p.
+Proof.
+  intros HI Hfr Hsafe. pose proof HI as (I1 & I2 & I3 & I4 & I5).
+  destruct (set_dirty_ok C p HI) as (D1 & S1 & [Sr Sx] & A1).
+  unfold remove_pin. set (p1 := set_dirty p) in *.
+  set (i := r_id r) in *. set (c := r_cid r). set (xm := idx_of_mode (r_mode r)).
+  (* cid index *)
+  pose proof D1 as (O1 & U1 & _ & _ & P1).
+  set (w2 := WDelIdx xm c i).
+  assert (R2 : recs (apply_write (st p1) w2) = recs (st p1)) by (unfold w2, xm; destruct (r_mode r); reflexivity).
+  destruct (emit_D C p1 w2 D1) as [D2 S2];
+    [intros b; discriminate|apply of_delidx; exact O1
+    |apply (uid_same (st p1)); [symmetry; exact R2|exact U1]
+    |apply (prot_same C (st p1)); [symmetry; exact R2|exact P1]|].
+  set (p2 := emit w2 p1) in *.
+  assert (X2 : forall x e, In e (get_idx x (st p2)) <-> In e (get_idx x (st p)) /\ ~ (x = xm /\ e = (c, i))).
+  { intros x e. cbn [p2 emit st]. unfold w2. rewrite get_idx_del, <- Sx. reflexivity. }
+  (* name index *)
+  set (p3 := if r_name r =? 0 then p2 else emit (WDelIdx IN (r_name r) i) p2).
+  assert (H3 : D C p3 /\ Steps C p2 p3 /\ recs (st p3) = recs (st p) /\ autosync p3 = autosync p /\
+               forall x e, In e (get_idx x (st p3)) <-> In e (get_idx x (st p)) /\ ~ removed_entry r x e).
+  { unfold p3. destruct (r_name r =? 0) eqn:En.
+    - apply N.eqb_eq in En. split; [exact D2|]. split; [apply steps_refl, D_Q; exact D2|].
+      split; [cbn [p2 emit st]; rewrite R2; symmetry; exact Sr|]. split; [exact A1|].
+      intros x e. rewrite X2. unfold removed_entry. fold xm c i. split.
+      + intros [H1 H2]. split; [exact H1|]. intros [H|[Hx He]]; [exact (H2 H)|].
+        subst x e. destruct (I1 IN _ _ H1) as [q [_ [_ Hq]]]. apply Hq. exact En.
+      + intros [H1 H2]. split; [exact H1|]. intros H. apply H2. left. exact H.
+    - pose proof D2 as (O2 & U2 & _ & _ & P2).
+      set (w3 := WDelIdx IN (r_name r) i).
+      assert (R3 : recs (apply_write (st p2) w3) = recs (st p2)) by reflexivity.
+      destruct (emit_D C p2 w3 D2) as [D3 S3];
+        [intros b; discriminate|apply of_delidx; exact O2
+        |apply (uid_same (st p2)); [symmetry; exact R3|exact U2]
+        |apply (prot_same C (st p2)); [symmetry; exact R3|exact P2]|].
+      split; [exact D3|]. split; [exact S3|].
+      split; [cbn [emit st]; rewrite R3; cbn [p2 emit st]; rewrite R2; symmetry; exact Sr|].
+      split; [exact A1|].
+      intros x e. cbn [emit st]. unfold w3. rewrite get_idx_del, X2. unfold removed_entry. fold xm c i. tauto. }
+  destruct H3 as (D3 & S3 & R3 & A3 & X3).
+  (* record *)
+  pose proof D3 as (O3 & U3 & _ & _ & P3).
+  assert (F3 : find_rec i (st p3) = Some r) by (rewrite (find_rec_recs i (st p3) (st p)); [exact Hfr|exact R3]).
+  assert (Hno : forall x k, ~ In (k, i) (get_idx x (st p3))).
+  { intros x k Hin. pose proof (O3 x k i Hin) as [q [Hq Hok]]. rewrite F3 in Hq. inversion Hq. subst q.
+    apply X3 in Hin. destruct Hin as [_ Hnr]. apply Hnr. unfold removed_entry.
+    destruct x; cbn [entry_ok] in Hok.
+    - left. destruct Hok as [Hc Hm]. unfold idx_of_mode. rewrite Hm. split; [reflexivity|]. rewrite <- Hc. reflexivity.
+    - left. destruct Hok as [Hc Hm]. unfold idx_of_mode. rewrite Hm. split; [reflexivity|]. rewrite <- Hc. reflexivity.
+    - right. destruct Hok as [Hc _]. split; [reflexivity|]. rewrite <- Hc. reflexivity. }
+  destruct (emit_D C p3 (WDelRec i) D3) as [D4 S4];
+    [intros b; discriminate|apply of_delrec; assumption|apply uid_delrec; exact U3
+    |apply prot_delrec; intros c' Hc'; rewrite R3; apply Hsafe; exact Hc'|].
+  split; [exact D4|]. split.
+  { eapply steps_trans; [exact S1|]. eapply steps_trans; [exact S2|]. eapply steps_trans; [exact S3|exact S4]. }
+  assert (R4 : recs (st (emit (WDelRec i) p3)) = del_rec i (recs (st p))) by (cbn [emit st apply_write set_recs recs]; rewrite R3; reflexivity).
+  assert (X4 : forall x e, In e (get_idx x (st (emit (WDelRec i) p3))) <-> In e (get_idx x (st p)) /\ ~ removed_entry r x e).
+  { intros x e. rewrite <- X3. destruct x; reflexivity. }
+  split.
+  { intros q Hq. rewrite R4 in Hq. apply del_rec_In in Hq. destruct Hq as [Hq Hne].
+    destruct (I3 q Hq) as [Q1 Q2]. split.
+    - apply X4. split; [exact Q1|]. intros [[_ He]|[_ He]]; inversion He; contradiction.
+    - intros Hn. apply (X4 IN). split; [exact (Q2 Hn)|]. intros [[_ He]|[_ He]]; inversion He; contradiction. }
+  split; [exact R4|]. split; [exact X4|exact A3].
+Qed.
+
+Lemma D_CP_Inv C p : D C p -> CP (st p) -> Inv C p.
+Proof.
+  intros (H1 & H2 & H3 & H4 & H5) Hc. unfold Inv.
+  split; [exact H1|]. split; [exact H2|]. split; [exact Hc|]. split; [intros _; exact H3|exact H5].
+Qed.
+
+Lemma Inv_weaken C C' p : (forall c, In c C' -> In c C) -> Inv C p -> Inv C' p.
+Proof.
+  intros Hs (H1 & H2 & H3 & H4 & H5). unfold Inv.
+  split; [exact H1|]. split; [exact H2|]. split; [exact H3|]. split; [exact H4|].
+  intros c Hc. apply H5, Hs, Hc.
+Qed.
+
+(** ---------- removing a list of pin ids of one CID ---------- *)
+Lemma remove_ids_ok C c sl : forall ids p b p',
+  Inv C p -> NoDup ids ->
+  (forall i, In i ids -> exists r, find_rec i (st p) = Some r /\ r_cid r = c) ->
+  (In c C -> exists q, In q (recs (st p)) /\ r_cid q = c /\ ~ In (r_id q) ids) ->
+  remove_ids c sl ids p = (b, p') ->
+  Inv C p' /\ Steps C p p' /\
+  (forall q, In q (recs (st p')) -> In q (recs (st p))) /\
+  (forall q, In q (recs (st p)) -> ~ In (r_id q) ids -> In q (recs (st p'))) /\
+  autosync p' = autosync p /\ (b = false -> p' = p).
+Proof.
+  induction ids as [|i rest IH]; intros p b p' HI Hnd Hrec Hwit Hrun.
+  - cbn [remove_ids] in Hrun. inversion Hrun. subst.
+    split; [exact HI|]. split; [apply steps_refl, Inv_Q; exact HI|]. repeat split; auto.
+  - cbn [remove_ids] in Hrun. destruct (Hrec i (or_introl eq_refl)) as [r [Hfr Hrc]].
+    rewrite Hfr in Hrun. inversion Hnd as [|x l Hnot Hnd' E]. subst x l.
+    pose proof (find_rec_some _ _ _ Hfr) as [Hrin Hrid].
+    destruct (sel_mode sl (r_mode r)).
+    + (* removePin *)
+      pose proof HI as (I1 & I2 & I3 & I4 & I5).
+      assert (Hsafe : forall c', In c' C -> exists q, In q (recs (st p)) /\ r_cid q = c' /\ r_id q <> r_id r).
+      { intros c' Hc'. destruct (N.eq_dec c' c) as [E|E].
+        - subst c'. destruct (Hwit Hc') as [q [Q1 [Q2 Q3]]]. exists q. split; [exact Q1|]. split; [exact Q2|].
+          intros Eq. apply Q3. left. rewrite <- Hrid. symmetry. exact Eq.
+        - destruct (I5 c' Hc') as [q [Q1 Q2]]. exists q. split; [exact Q1|]. split; [exact Q2|].
+          intros Eq. pose proof (find_rec_uid _ _ I2 Q1) as Fq. rewrite Eq, Hrid, Hfr in Fq.
+          inversion Fq. subst q. apply E. rewrite <- Q2, Hrc. reflexivity. }
+      rewrite <- Hrid in Hfr.
+      destruct (remove_pin_ok C p r HI Hfr Hsafe) as (D1 & S1 & C1 & R1 & X1 & A1).
+      rewrite Hrid in R1.
+      set (p1 := remove_pin r p) in *.
+      destruct (remove_ids c sl rest p1) as [b1 p1'] eqn:Hrest. inversion Hrun. subst b p'.
+      assert (HI1 : Inv C p1) by (apply D_CP_Inv; assumption).
+      destruct (IH p1 b1 p1' HI1 Hnd') as (J1 & J2 & J3 & J4 & J5 & _).
+      * intros j Hj. destruct (Hrec j (or_intror Hj)) as [rj [Hfj Hcj]]. exists rj. split; [|exact Hcj].
+        unfold find_rec. rewrite R1. rewrite find_del_other; [exact Hfj|]. intros E. subst j. contradiction.
+      * intros Hc. destruct (Hwit Hc) as [q [Q1 [Q2 Q3]]]. exists q. split.
+        { rewrite R1. apply del_rec_In. split; [exact Q1|]. intros E. apply Q3. left. symmetry. exact E. }
+        split; [exact Q2|]. intros Hin. apply Q3. right. exact Hin.
+      * exact Hrest.
+      * split; [exact J1|]. split; [eapply steps_trans; [exact S1|exact J2]|].
+        split. { intros q Hq. apply J3 in Hq. rewrite R1 in Hq. apply del_rec_In in Hq. tauto. }
+        split. { intros q Hq Hnin. apply J4.
+                 - rewrite R1. apply del_rec_In. split; [exact Hq|]. intros E. apply Hnin. left. symmetry. exact E.
+                 - intros Hin. apply Hnin. right. exact Hin. }
+        split; [rewrite J5; exact A1|]. intros E. discriminate.
+    + (* not selected: skip *)
+      destruct (IH p b p' HI Hnd') as (J1 & J2 & J3 & J4 & J5 & J6).
+      * intros j Hj. apply Hrec. right. exact Hj.
+      * intros Hc. destruct (Hwit Hc) as [q [Q1 [Q2 Q3]]]. exists q. split; [exact Q1|]. split; [exact Q2|].
+        intros Hin. apply Q3. right. exact Hin.
+      * exact Hrun.
+      * split; [exact J1|]. split; [exact J2|]. split; [exact J3|].
+        split. { intros q Hq Hnin. apply J4; [exact Hq|]. intros Hin. apply Hnin. right. exact Hin. }
+        split; [exact J5|exact J6].
+Qed.
+
+(** the ids an index search finds have records with that CID *)
+Lemma sel_ids_recs c sl s : OF s -> forall i, In i (sel_ids c sl s) -> exists r, find_rec i s = Some r /\ r_cid r = c.
+Proof.
+  intros H i Hin. destruct sl; cbn [sel_ids] in Hin.
+  - apply mm_search_In in Hin. destruct (H IR c i Hin) as [r [Hf [Hc _]]]. exists r. auto.
+  - apply mm_search_In in Hin. destruct (H ID c i Hin) as [r [Hf [Hc _]]]. exists r. auto.
+  - apply in_app_or in Hin. destruct Hin as [Hin|Hin]; apply mm_search_In in Hin.
+    + destruct (H IR c i Hin) as [r [Hf [Hc _]]]. exists r. auto.
+    + destruct (H ID c i Hin) as [r [Hf [Hc _]]]. exists r. auto.
+Qed.
+
+Lemma nodup_app {A} (l1 l2 : list A) :
+  NoDup l1 -> NoDup l2 -> (forall a, In a l1 -> ~ In a l2) -> NoDup (l1 ++ l2).
+Proof.
+  induction 1 as [|a l Hn Hd IH]; intros H2 Hdis; cbn [app]; [exact H2|].
+  constructor.
+  - intros Hin. apply in_app_or in Hin. destruct Hin as [Hin|Hin]; [contradiction|].
+    apply (Hdis a (or_introl eq_refl) Hin).
+  - apply IH; [exact H2|]. intros x Hx. apply Hdis. right. exact Hx.
+Qed.
+
+Lemma sel_ids_nodup c sl s : OF s -> NoDup (sel_ids c sl s).
+Proof.
+  intros H. destruct sl; cbn [sel_ids]; try apply mm_search_nodup.
+  apply nodup_app; try apply mm_search_nodup.
+  intros i H1 H2. apply mm_search_In in H1, H2.
+  destruct (H IR c i H1) as [r [Hf [_ Hm]]]. destruct (H ID c i H2) as [r' [Hf' [_ Hm']]].
+  rewrite Hf in Hf'. inversion Hf'. subst r'. rewrite Hm in Hm'. discriminate.
+Qed.
+
+(** ---------- flush ---------- *)
+Lemma set_clean_ok C p :
+  Inv C p -> Inv C (set_clean p) /\ Steps C p (set_clean p) /\ samepins (st p) (st (set_clean p)) /\
+  autosync (set_clean p) = autosync p.
+Proof.
+  intros HI. pose proof HI as (I1 & I2 & I3 & I4 & I5). unfold set_clean. destruct (mdirty p) eqn:E.
+  - assert (Hs : samepins (st p) (apply_write (st p) (WDirty false))) by apply samepins_dflag.
+    assert (HI' : Inv C (set_md false (emit (WDirty false) p))).
+    { unfold Inv. cbn [set_md emit st mdirty].
+      split; [apply (samepins_OF _ _ Hs I1)|]. split; [apply (uid_same (st p)); [apply Hs|exact I2]|].
+      split; [apply (samepins_CP _ _ Hs I3)|]. split; [intros X; discriminate|].
+      apply (prot_same C (st p)); [apply Hs|exact I5]. }
+    split; [exact HI'|]. split.
+    + apply steps_md. apply steps_emit; [apply Inv_Q; exact HI|]. apply (Inv_Q C _ HI').
+    + split; [exact Hs|reflexivity].
+  - split; [exact HI|]. split; [apply steps_refl, Inv_Q; exact HI|]. split; [apply samepins_refl|reflexivity].
+Qed.
+
+Lemma flush_pins_ok C force p :
+  Inv C p -> Inv C (flush_pins force p) /\ Steps C p (flush_pins force p) /\
+  samepins (st p) (st (flush_pins force p)) /\ autosync (flush_pins force p) = autosync p.
+Proof.
+  intros HI. unfold flush_pins. destruct (autosync p || force).
+  - apply set_clean_ok. exact HI.
+  - split; [exact HI|]. split; [apply steps_refl, Inv_Q; exact HI|]. split; [apply samepins_refl|reflexivity].
+Qed.
+
+Lemma fresh_sub i s s' : (forall q, In q (recs s') -> In q (recs s)) -> fresh i s -> fresh i s'.
+Proof.
+  intros Hsub Hf Hin. apply Hf. apply in_map_iff in Hin. destruct Hin as [q [Hq Hin]].
+  apply in_map_iff. exists q. split; [exact Hq|]. apply Hsub. exact Hin.
+Qed.
+
+(** ---------- removePinsForCid on a CID outside [C] ---------- *)
+Lemma remove_pins_ok C c sl p b p' :
+  Inv C p -> ~ In c C -> remove_pins_for_cid c sl p = (b, p') ->
+  Inv C p' /\ Steps C p p' /\ (forall q, In q (recs (st p')) -> In q (recs (st p))) /\
+  autosync p' = autosync p /\ (b = false -> p' = p).
+Proof.
+  intros HI Hc Hrun. unfold remove_pins_for_cid in Hrun. pose proof HI as (I1 & _).
+  destruct (remove_ids_ok C c sl _ p b p' HI (sel_ids_nodup c sl _ I1) (sel_ids_recs c sl _ I1)) as (J1 & J2 & J3 & _ & J5 & J6);
+    [intros H; contradiction|exact Hrun|].
+  split; [exact J1|]. split; [exact J2|]. split; [exact J3|]. split; [exact J5|exact J6].
+Qed.
+
+Lemma cond_remove_ok C c sl p (b : bool) :
+  Inv C p -> ~ In c C ->
+  let p1 := if b then snd (remove_pins_for_cid c sl p) else p in
+  Inv C p1 /\ Steps C p p1 /\ (forall q, In q (recs (st p1)) -> In q (recs (st p))) /\ autosync p1 = autosync p.
+Proof.
+  intros HI Hc. destruct b; cbn zeta.
+  - destruct (remove_pins_for_cid c sl p) as [b' p'] eqn:E. cbn [snd].
+    destruct (remove_pins_ok C c sl p b' p' HI Hc E) as (J1 & J2 & J3 & J4 & _).
+    split; [exact J1|]. split; [exact J2|]. split; [exact J3|exact J4].
+  - split; [exact HI|]. split; [apply steps_refl, Inv_Q; exact HI|]. split; [intros q Hq; exact Hq|reflexivity].
+Qed.
+
+(** ---------- the operations ---------- *)
+Definition unpins (o : op) (c : N) : bool :=
+  match o with
+  | OUnpin c' _ => c =? c'
+  | OUpdate from _ true _ => c =? from
+  | _ => false
+  end.
+Definition repins (o : op) (c : N) : bool :=
+  match o with
+  | OPin c' _ _ _ | OPinMode c' _ _ => c =? c'
+  | _ => false
+  end.
+
+Lemma find_rec_app_other j s s' r : recs s' = recs s ++ [r] -> r_id r <> j -> find_rec j s' = find_rec j s.
+Proof. intros Hr Hne. unfold find_rec. rewrite Hr. apply find_app_fresh. exact Hne. Qed.
+
+(** add the new pin, then remove the old pins of the same CID (defect switch off) *)
+Lemma add_then_remove_ok C newid c m n sl p :
+  Inv C p -> fresh newid (st p) ->
+  let old := sel_ids c sl (st p) in
+  let p1 := add_pin newid c m n p in
+  let p2 := snd (remove_ids c sl old p1) in
+  Inv C p2 /\ Steps C p p2 /\ autosync p2 = autosync p.
+Proof.
+  intros HI Hf old p1 p2. pose proof HI as (I1 & I2 & _).
+  destruct (add_pin_ok C p newid c m n HI Hf) as (D1 & S1 & C1 & P1 & R1 & G1 & A1). fold p1 in D1, S1, C1, P1, R1, G1, A1.
+  assert (HI1 : Inv C p1) by (apply D_CP_Inv; assumption).
+  assert (Hold : forall i, In i old -> exists r, find_rec i (st p) = Some r /\ r_cid r = c) by (apply sel_ids_recs; exact I1).
+  assert (Hne : forall i, In i old -> newid <> i).
+  { intros i Hi E. subst i. destruct (Hold newid Hi) as [r [Hr _]]. apply find_rec_some in Hr.
+    destruct Hr as [Hr1 Hr2]. apply Hf. rewrite <- Hr2. apply in_map. exact Hr1. }
+  unfold p2. destruct (remove_ids c sl old p1) as [b p'] eqn:E. cbn [snd].
+  destruct (remove_ids_ok C c sl old p1 b p' HI1 (sel_ids_nodup c sl _ I1)) as (J1 & J2 & _ & _ & J5 & _).
+  - intros i Hi. destruct (Hold i Hi) as [r [Hr Hc]]. exists r. split; [|exact Hc].
+    rewrite (find_rec_app_other i (st p) (st p1) _ R1); [exact Hr|]. cbn [r_id]. apply Hne. exact Hi.
+  - intros _. exists (mkrec newid c m n). split; [rewrite R1; apply in_or_app; right; left; reflexivity|].
+    split; [reflexivity|]. cbn [r_id]. intros Hin. exact (Hne _ Hin eq_refl).
+  - exact E.
+  - split; [exact J1|]. split; [eapply steps_trans; [exact S1|exact J2]|]. rewrite J5. exact A1.
+Qed.
+
+Lemma finish_ok C force p0 p :
+  Inv C p -> Steps C p0 p -> Inv C (flush_pins force p) /\ Steps C p0 (flush_pins force p).
+Proof.
+  intros HI HS. destruct (flush_pins_ok C force p HI) as (J1 & J2 & _). split; [exact J1|].
+  eapply steps_trans; [exact HS|exact J2].
+Qed.
+
+Lemma steps_same C p p' : st p' = st p -> log p' = log p -> Q C (st p) -> Steps C p p'.
+Proof.
+  intros Hs Hl HQ. exists []. split; [exact Hl|]. split; [exact Hs|]. intros n. rewrite firstn_nil. exact HQ.
+Qed.
+
+Lemma Inv_same C p p' : st p' = st p -> mdirty p' = mdirty p -> Inv C p -> Inv C p'.
+Proof. unfold Inv. intros Hs Hm. rewrite Hs, Hm. auto. Qed.
+
+Lemma pin_recursive_ok C fl newid c n ok p r p' :
+  Inv C p -> fresh newid (st p) -> (f_remove_then_add fl = true -> ~ In c C) ->
+  pin_recursive fl newid c n ok p = (r, p') -> Inv C p' /\ Steps C p p'.
+Proof.
+  intros HI Hf Hc Hrun. unfold pin_recursive in Hrun. destruct (f_remove_then_add fl) eqn:Efl.
+  - specialize (Hc eq_refl).
+    destruct (cond_remove_ok C c SRec p (mm_hasany c (idxR (st p))) HI Hc) as (J1 & S1 & R1 & A1).
+    cbv zeta in J1, S1, R1, A1, Hrun.
+    set (p1 := if mm_hasany c (idxR (st p)) then snd (remove_pins_for_cid c SRec p) else p) in *.
+    destruct (negb ok).
+    + inversion Hrun. subst. split; assumption.
+    + destruct (cond_remove_ok C c SDir p1 (mm_hasany c (idxD (st p1))) J1 Hc) as (J2 & S2 & R2 & A2).
+      cbv zeta in J2, S2, R2, A2.
+      set (p2 := if mm_hasany c (idxD (st p1)) then snd (remove_pins_for_cid c SDir p1) else p1) in *.
+      assert (Hf2 : fresh newid (st p2)).
+      { apply (fresh_sub newid (st p)); [|exact Hf]. intros q Hq. apply R1, R2. exact Hq. }
+      destruct (add_pin_ok C p2 newid c MRec n J2 Hf2) as (D3 & S3 & C3 & _).
+      inversion Hrun. subst.
+      apply finish_ok; [apply D_CP_Inv; assumption|].
+      eapply steps_trans; [exact S1|]. eapply steps_trans; [exact S2|exact S3].
+  - destruct (negb ok).
+    + inversion Hrun. subst. split; [exact HI|apply steps_refl, Inv_Q; exact HI].
+    + destruct (add_then_remove_ok C newid c MRec n SAny p HI Hf) as (J1 & S1 & _).
+      cbv zeta in J1, S1. inversion Hrun. subst. apply finish_ok; assumption.
+Qed.
+
+Lemma pin_direct_ok C fl newid c n p r p' :
+  Inv C p -> fresh newid (st p) -> (f_remove_then_add fl = true -> ~ In c C) ->
+  pin_direct fl newid c n p = (r, p') -> Inv C p' /\ Steps C p p'.
+Proof.
+  intros HI Hf Hc Hrun. unfold pin_direct in Hrun.
+  destruct (mm_hasany c (idxR (st p))).
+  { inversion Hrun. subst. split; [exact HI|apply steps_refl, Inv_Q; exact HI]. }
+  destruct (f_remove_then_add fl) eqn:Efl.
+  - specialize (Hc eq_refl).
+    destruct (cond_remove_ok C c SDir p (mm_hasany c (idxD (st p))) HI Hc) as (J1 & S1 & R1 & A1).
+    cbv zeta in J1, S1, R1, A1, Hrun.
+    set (p1 := if mm_hasany c (idxD (st p)) then snd (remove_pins_for_cid c SDir p) else p) in *.
+    assert (Hf1 : fresh newid (st p1)) by (apply (fresh_sub newid (st p)); assumption).
+    destruct (add_pin_ok C p1 newid c MDir n J1 Hf1) as (D3 & S3 & C3 & _).
+    inversion Hrun. subst.
+    apply finish_ok; [apply D_CP_Inv; assumption|]. eapply steps_trans; [exact S1|exact S3].
+  - destruct (add_then_remove_ok C newid c MDir n SDir p HI Hf) as (J1 & S1 & _).
+    cbv zeta in J1, S1. inversion Hrun. subst. apply finish_ok; assumption.
+Qed.
+
+Lemma unpin_ok C c rc p r p' :
+  Inv C p -> ~ In c C -> unpin c rc p = (r, p') -> Inv C p' /\ Steps C p p'.
+Proof.
+  intros HI Hc Hrun. unfold unpin in Hrun.
+  destruct (mm_hasany c (idxR (st p)) && negb rc).
+  { inversion Hrun. subst. split; [exact HI|apply steps_refl, Inv_Q; exact HI]. }
+  destruct (negb (mm_hasany c (idxR (st p))) && negb (mm_hasany c (idxD (st p)))).
+  { inversion Hrun. subst. split; [exact HI|apply steps_refl, Inv_Q; exact HI]. }
+  destruct (remove_pins_for_cid c SAny p) as [b p1] eqn:E.
+  destruct (remove_pins_ok C c SAny p b p1 HI Hc E) as (J1 & S1 & _).
+  destruct b; inversion Hrun; subst.
+  - apply finish_ok; assumption.
+  - split; assumption.
+Qed.
+
+Lemma update_ok C newid from to unp ok p r p' :
+  Inv C p -> fresh newid (st p) -> (unp = true -> ~ In from C) ->
+  update newid from to unp ok p = (r, p') -> Inv C p' /\ Steps C p p'.
+Proof.
+  intros HI Hf Hc Hrun. unfold update in Hrun.
+  assert (Hsame : Inv C p /\ Steps C p p) by (split; [exact HI|apply steps_refl, Inv_Q; exact HI]).
+  destruct (mm_search from (idxR (st p))) as [|fid [|x l]]; try (inversion Hrun; subst; exact Hsame).
+  destruct (from =? to); [inversion Hrun; subst; exact Hsame|].
+  destruct (mm_hasany to (idxR (st p))); [inversion Hrun; subst; exact Hsame|].
+  destruct (negb ok); [inversion Hrun; subst; exact Hsame|].
+  destruct (find_rec fid (st p)) as [rf|]; [|inversion Hrun; subst; exact Hsame].
+  destruct (add_pin_ok C p newid to MRec (r_name rf) HI Hf) as (D1 & S1 & C1 & _).
+  set (p1 := add_pin newid to MRec (r_name rf) p) in *.
+  assert (J1 : Inv C p1) by (apply D_CP_Inv; assumption).
+  destruct unp.
+  - specialize (Hc eq_refl).
+    destruct (remove_pins_for_cid from SRec p1) as [b p2] eqn:E. cbn [snd] in Hrun.
+    destruct (remove_pins_ok C from SRec p1 b p2 J1 Hc E) as (J2 & S2 & _).
+    inversion Hrun. subst. apply finish_ok; [exact J2|]. eapply steps_trans; [exact S1|exact S2].
+  - inversion Hrun. subst. apply finish_ok; assumption.
+Qed.
+
+(** every operation, either defect setting: the CIDs of [C] keep a pin record after every
+    single write, provided the operation is not asked to unpin them (and, with the defect on,
+    does not re-pin them) *)
+Definition allowed (fl : flags) (o : op) (C : list N) : Prop :=
+  forall c, In c C -> unpins o c = false /\ (f_remove_then_add fl = true -> repins o c = false).
+
+Lemma exec_ok C fl newid p o r p' :
+  Inv C p -> fresh newid (st p) -> allowed fl o C ->
+  exec fl newid p o = (r, p') -> Inv C p' /\ Steps C p p'.
+Proof.
+  intros HI Hf Hal Hrun.
+  assert (Hsame : Inv C p /\ Steps C p p) by (split; [exact HI|apply steps_refl, Inv_Q; exact HI]).
+  destruct o as [c rc n ok|c m n|c rc|from to unp ok|b|]; cbn [exec] in Hrun.
+  - assert (Hc : f_remove_then_add fl = true -> ~ In c C).
+    { intros Efl Hin. destruct (Hal c Hin) as [_ H]. specialize (H Efl). cbn [repins] in H.
+      rewrite N.eqb_refl in H. discriminate. }
+    destruct rc.
+    + eapply pin_recursive_ok; eassumption.
+    + eapply pin_direct_ok; eassumption.
+  - assert (Hc : f_remove_then_add fl = true -> ~ In c C).
+    { intros Efl Hin. destruct (Hal c Hin) as [_ H]. specialize (H Efl). cbn [repins] in H.
+      rewrite N.eqb_refl in H. discriminate. }
+    destruct (m =? 0); [eapply pin_recursive_ok; eassumption|].
+    destruct (m =? 1); [eapply pin_direct_ok; eassumption|].
+    inversion Hrun. subst. exact Hsame.
+  - eapply unpin_ok; [exact HI| |exact Hrun].
+    intros Hin. destruct (Hal c Hin) as [H _]. cbn [unpins] in H. rewrite N.eqb_refl in H. discriminate.
+  - eapply update_ok; [exact HI|exact Hf| |exact Hrun].
+    intros Eu Hin. subst unp. destruct (Hal from Hin) as [H _]. cbn [unpins] in H.
+    rewrite N.eqb_refl in H. discriminate.
+  - inversion Hrun. subst. split.
+    + eapply Inv_same; [| |exact HI]; reflexivity.
+    + apply steps_same; [reflexivity|reflexivity|apply Inv_Q; exact HI].
+  - inversion Hrun. subst. apply finish_ok; [exact HI|apply steps_refl, Inv_Q; exact HI].
 Qed.
